@@ -96,6 +96,22 @@ pub fn avro_value(a: &dyn Array, i: usize) -> Value {
     }
 }
 
+/// the type with run-end and dictionary encodings replaced by the types of their values (what the reader returns)
+pub fn plain_type(t: &DataType) -> DataType {
+    use DataType::*;
+    let f = |f: &Arc<Field>| Arc::new(Field::new(f.name(), plain_type(f.data_type()), f.is_nullable()));
+    match t {
+        RunEndEncoded(_, v) => plain_type(v.data_type()),
+        Dictionary(_, v) => plain_type(v),
+        List(x) => List(f(x)),
+        LargeList(x) => LargeList(f(x)),
+        FixedSizeList(x, n) => FixedSizeList(f(x), *n),
+        Map(x, o) => Map(f(x), *o),
+        Struct(fs) => Struct(fs.iter().map(|x| f(x)).collect::<Vec<_>>().into()),
+        other => other.clone(),
+    }
+}
+
 /// a run-end encoded array below a struct / list / map (scopes a known finding)
 pub fn ree_nested(t: &DataType, below: bool) -> bool {
     use DataType::*;
@@ -319,6 +335,9 @@ pub fn round_trips(args: &Args, rng: &mut Rng, tr: &mut Shards) -> (usize, usize
                 let u = a.as_union();
                 Value::Array((0..u.len()).map(|i| Value::from(u.type_id(i))).collect())
             }).collect::<Vec<_>>(),
+            "has_ree": case.schema.fields().iter().any(|f| ree_nested(f.data_type(), true)),
+            "sliced": case.parts.len() > 1,
+            "schema_in_plain": norm_schema(&Schema::new(case.schema.fields().iter().map(|f| Field::new(f.name(), plain_type(f.data_type()), f.is_nullable())).collect::<Vec<_>>())),
             "ree_nested": case.schema.fields().iter().any(|f| ree_nested(f.data_type(), false)),
             "types": case.schema.fields().iter().map(|f| safe(&format!("{:?}", f.data_type()))).collect::<Vec<_>>(),
         });
